@@ -19,10 +19,11 @@ func init() { registerFact("Writes.lean", genWrites) }
 func genWrites(r *Repo) (string, error) {
 	nodeFields := map[string]bool{"route": true, "inode": true, "key": true, "childKeys": true, "children": true,
 		"params": true, "paramChildIndex": true, "wildcardChildIndex": true}
-	files := []string{"tree.go", "node.go", "txn.go", "iter.go", "fox.go"}
+	// the whole root package (declarations are found wherever in the package they live)
+	files := []string{"fox.go"}
 	oc := &originCtx{r: r}
 	for _, file := range files {
-		f := r.Files[file]
+		f := r.File(file)
 		if f == nil {
 			return "", fmt.Errorf("missing file %s", file)
 		}
@@ -34,7 +35,7 @@ func genWrites(r *Repo) (string, error) {
 	}
 	var edges, edgeArgs, assigns, adds, resets []string
 	for _, file := range files {
-		f := r.Files[file]
+		f := r.File(file)
 		for _, d := range f.Decls {
 			fd, ok := d.(*ast.FuncDecl)
 			if !ok || fd.Body == nil {
@@ -44,8 +45,23 @@ func genWrites(r *Repo) (string, error) {
 			if fd.Recv != nil && len(fd.Recv.List) == 1 {
 				fn = recvName(fd.Recv.List[0].Type) + "." + fn
 			}
-			if file == "fox.go" && fn != "Router.newTree" {
-				// fox.go: only newTree builds nodes; the request context has fields with the same names
+			// only the code that handles tree nodes: the methods of the tree types, Router.newTree, and plain functions that
+			// mention *node (the request context has fields with the same names as a node: its methods are not scanned)
+			recv := ""
+			if fd.Recv != nil && len(fd.Recv.List) == 1 {
+				recv = recvName(fd.Recv.List[0].Type)
+			}
+			switch recv {
+			case "tXn", "node", "roots", "iTree", "Txn", "Iter", "rawIterator", "skippedNodes", "searchResult":
+			case "Router":
+				if fn != "Router.newTree" {
+					continue
+				}
+			case "":
+				if !strings.Contains(r.Text(fd), "*node") {
+					continue
+				}
+			default:
 				continue
 			}
 			if fn == "Txn.Lookup" {
